@@ -116,7 +116,7 @@ Section Thr.
     destruct Sa as [|b| | | | |];
       try (apply bind_inv in H as (e & s1 & He & H); apply ret_inv in H as [<- <-];
            destruct (Hx _ _ _ _ _ Hw Hi He) as [Hs Hi1]; split; [eexists; split; [reflexivity|exact Hs]|exact Hi1]).
-    apply ret_inv in H as [<- <-]. apply walk_leaf_inv in Hw; [|exact I]. subst. split; [reflexivity|exact Hi].
+    apply ret_inv in H as [<- <-]. apply walk_leaf_inv in Hw; [|exact I]. subst. split; [now left|exact Hi].
   Qed.
 
   Lemma some_thr key kvs u u' st oe st' :
@@ -167,7 +167,9 @@ Section Thr.
     with_key (parse_deps P) (s_ "dependencies") kvs (ret None) st = POk (deps, st') ->
     deps_rel O WCode kvs deps /\ Inv st' u'.
   Proof.
-    intros Hok HI Hw Hi H. rewrite with_key_lookup in H. unfold deps_rel.
+    intros Hok HI Hw Hi H.
+    cut (deps_parsed O WCode kvs deps /\ Inv st' u'); [intros [Hd Hi']; split; [now apply deps_parsed_rel|exact Hi']|].
+    rewrite with_key_lookup in H. unfold deps_parsed.
     destruct (lookup (s_ "dependencies") kvs) as [Sp|].
     2:{ apply ret_inv in H as [<- <-]. apply walks_nil_inv in Hw. subst. split; [reflexivity|exact Hi]. }
     unfold parse_deps in H. destruct Sp as [| | | | | |dd]; try (exfalso; eapply fail_inv; exact H).
